@@ -10,11 +10,12 @@
    entry point ([i_entry]: verifier.Verify, VerifyBlob, SkipVerify, notation.Verify,
    notation.VerifyBlob, outcome.UserMetadata), every answer of the dependencies
    ([scenario]), every list of signatures of any length and every attempt limit (any Z).
-   [wf] = the contracts of the injected components only (an in-process plugin / caller-supplied
-   Verifier that returns no error returns a usable value; the policy documents are still as
-   the constructor validated them). Since fix d78db00 there is NO contract on the revocation
-   validator any more: every answer, also one that is not one result per certificate, returns
-   normally (C12_before_fix_d78db00_refuted).
+   [wf] = two contracts only: a caller-supplied Verifier / BlobVerifier that returns no error
+   returns an error-free outcome, and the policy documents are still as the constructor validated
+   them. Since the fixes d78db00 and 686cc56 there is NO contract on the revocation validator or
+   on the verification plugin any more: whatever they answer (a result vector of the wrong shape,
+   (nil, nil) to get-plugin-metadata or verify-signature) the entry points return normally
+   (C12_before_fix_d78db00_refuted, C12_before_fix_686cc56_refuted).
    Crash-freedom of the third-party decoders on arbitrary bytes is NOT a theorem: it is
    explored by the harness (evidence keys "exploration_..."). *)
 From NV Require Import Base Regex Generated C12_Model C12_Proofs C12_Audit.
@@ -161,10 +162,22 @@ Theorem C12_before_fix_d78db00_refuted :
 Proof. exact prefix_d78db00_refuted. Qed.
 Print Assumptions C12_before_fix_d78db00_refuted.
 
+(* before fix 686cc56 an in-process verification plugin answering (nil, nil) to get-plugin-metadata
+   or to verify-signature reached a dereference (the contract was part of [wf]); now the first is an
+   inconclusive verification and the second an ordinary plugin error, each with the outcome present
+   and its error set. There is no contract on the verification plugin in [wf] any more. *)
+Theorem C12_before_fix_686cc56_refuted :
+  process_signature_v0 LStrict (PMPlugin MetaNil) (sc_plugin (PResp true (Some true) (Some true))) = PSPanic /\
+  process_signature_v0 LStrict (PMPlugin (Meta true [CapTI])) (sc_plugin PRNil) = PSPanic /\
+  (exists o, model (i_base EVerify (v_strict (PMPlugin MetaNil)) VLib (sc_plugin (PResp true (Some true) (Some true))))
+               = ORet false None [Some o] (Some XInconclusive) /\ oc_err o = Some XInconclusive) /\
+  (exists o, model (i_base EVerifyBlob (v_strict (PMPlugin (Meta true [CapTI]))) VLib (sc_plugin PRNil))
+               = ORet false None [Some o] (Some XOther) /\ oc_err o = Some XOther).
+Proof. exact prefix_686cc56_refuted. Qed.
+Print Assumptions C12_before_fix_686cc56_refuted.
+
 (* [wf] cannot be weakened: each contract violated alone reaches a dereference *)
 Theorem C12_contracts_needed :
-  model (i_base EVerify (v_strict (PMPlugin MetaNil)) VLib (sc_plugin (PResp true (Some true) (Some true)))) = OPanic /\
-  model (i_base EVerify (v_strict (PMPlugin (Meta true [CapTI]))) VLib (sc_plugin PRNil)) = OPanic /\
   model (i_base ENVerifyBlob (v_strict PMNil) (VCustom None false) sc_good) = OPanic /\
   model (i_base EVerify (mk_v (Some SelBadLevel) None PMNil) VLib sc_good) = OPanic.
 Proof. exact contracts_needed. Qed.
@@ -323,7 +336,6 @@ Proof. exact ex_wrong_kind. Qed.
 Example C12_example_nil_plugin_manager :
   let sc := sc_plugin PRNil in
   s_sig sc = SigOK /\ s_pattr sc = PName /\ s_nonstr_crit sc = false /\ s_minver_bad sc = false /\
-  sc_wf sc = false /\
   exists o, model (i_base EVerify (v_strict PMNil) VLib sc) = ORet false None [Some o] (Some XInconclusive) /\
             oc_err o = Some XInconclusive.
 Proof. exact ex_nil_pm. Qed.
